@@ -26,7 +26,7 @@ macro_rules! props {
     };
 }
 
-props!(c01, c02, c03, c05, c06, c07, c08, c09, c10, c11, c12, c13, c15, c16, c17, c18, c19, c20);
+props!(c01, c02, c03, c04, c05, c06, c07, c08, c09, c10, c11, c12, c13, c14, c15, c16, c17, c18, c19, c20);
 
 pub fn find(id: &str) -> Option<&'static Prop> {
     all().into_iter().find(|p| p.id == id)
